@@ -71,15 +71,68 @@ Proof.
   rewrite exec_acts_app. destruct (exec_acts c l1 s) as [s1 [ |e| ]]; try discriminate. eauto.
 Qed.
 
-Definition no_ext (x : nat * tspec) : bool := match snd x with TExt _ => false | _ => true end.
+
+Lemma firstn_plus {A} (l : list A) : forall n m, firstn (n + m) l = firstn n l ++ firstn m (skipn n l).
+Proof.
+  induction l as [|a l IH]; intros n m.
+  - rewrite !firstn_nil, skipn_nil, firstn_nil. reflexivity.
+  - destruct n; simpl; [reflexivity|]. rewrite IH. reflexivity.
+Qed.
+
+Lemma slice_split (D : list byte) a n r :
+  n <= r -> slice D a n ++ slice D (a + n) (r - n) = slice D a r.
+Proof.
+  intros H. unfold slice. rewrite <- (skipn_skipn' D a n).
+  replace r with (n + (r - n)) at 2 by lia. rewrite firstn_plus. reflexivity.
+Qed.
+
+Lemma slice_length (D : list byte) a n : a + n <= length D -> length (slice D a n) = n.
+Proof. intros H. unfold slice. rewrite firstn_length, skipn_length. lia. Qed.
+
+Lemma Forall2_nth_l {A B} (R : A -> B -> Prop) l l0 h x :
+  Forall2 R l l0 -> nth_error l h = Some x -> exists y, nth_error l0 h = Some y /\ R x y.
+Proof.
+  intros H. revert h. induction H as [|x0 y l l0 Hxy H IH]; intros h Hh.
+  - destruct h; discriminate.
+  - destruct h as [|h]; simpl in *; [inversion Hh; subst; eauto | apply IH; exact Hh].
+Qed.
 
 Section Image.
   Variable fs0 : fsT.
   Variable tens : list tstate.
-  Variable tmpf : path.
+  Variable sc : scn.
+  Let dest := dest_of fs0 (sc_req sc).
+  Let tmpd := sc_tmpd sc.
+  Let tmpf := tmpf_of sc dest.
+
+  (* the sources of the external tensors are not inside the (unpredictably named) temporary directory *)
+  Definition src_wf : Prop :=
+    forall h x, nth_error tens h = Some x ->
+      T tmpd (t_path x) = false /\ T tmpd (resolve fs0 (t_path x)) = false.
+  Hypothesis Hsrc : src_wf.
 
   Definition Cont (f : list byte) (s : st) : Prop :=
     s_fd s = Some tmpf /\ exists m, lookup (s_fs s) tmpf = Some (File f m).
+
+  Lemma step_IA a s s' : okA fs0 sc a = true -> InvA fs0 tens sc s -> sem a s = (s', Ok tt) -> InvA fs0 tens sc s'.
+  Proof. intros Ha HA Hs. pose proof (InvA_sem fs0 tens sc a s Ha HA) as H. rewrite Hs in H. exact H. Qed.
+
+  Lemma acts_IA c l s s' :
+    forallb (okA fs0 sc) l = true -> InvA fs0 tens sc s -> exec_acts c l s = (s', SOk) -> InvA fs0 tens sc s'.
+  Proof. intros Hl HA H. pose proof (A_acts fs0 tens sc c l s Hl HA) as X. rewrite H in X. exact X. Qed.
+
+  Lemma src_stable s h x' :
+    InvA fs0 tens sc s -> nth_error (s_tens s) h = Some x' ->
+    exists x, nth_error tens h = Some x /\ t_path x' = t_path x /\ t_off x' = t_off x /\ t_len x' = t_len x
+              /\ file_at (s_fs s) (t_path x') = file_at fs0 (t_path x).
+  Proof.
+    intros HA Hn. pose proof (InvA_lookup _ _ _ _ HA) as HL. destruct HA as (_ & _ & HT).
+    destruct (Forall2_nth_l _ _ _ _ _ HT Hn) as (x & Hx & (E1 & E2 & E3 & _)).
+    exists x. repeat split; auto. rewrite E1. destruct (Hsrc h x Hx) as [W1 W2].
+    unfold file_at, resolve in *. rewrite (HL _ W1).
+    destruct (lookup fs0 (t_path x)) as [[| |tg]|]; try (rewrite (HL _ W1); reflexivity).
+    rewrite (HL _ W2). reflexivity.
+  Qed.
 
   Lemma do_write_Cont f s d s' :
     Cont f s -> do_write s d = (s', Ok tt) -> Cont (write_at f (s_pos s) d) s' /\ s_pos s' = s_pos s + length d.
@@ -88,8 +141,8 @@ Section Image.
     split; [split; [reflexivity|]|reflexivity]. exists m. apply lookup_insert_eq.
   Qed.
 
-  Lemma multi_Cont c chunks : forall ra f s s',
-    Cont f s -> exec_acts c (multi_acts chunks ra) s = (s', SOk) ->
+  Lemma multi_Cont c e chunks : forall ra f s s',
+    Cont f s -> exec_acts c (multi_acts chunks ra e) s = (s', SOk) ->
     Cont (write_at f (s_pos s) (concat chunks)) s'.
   Proof.
     induction chunks as [|ch r IH]; intros ra f s s' HC H.
@@ -97,7 +150,7 @@ Section Image.
       + unfold perform in H. simpl in H. discriminate.
       + inversion H; subst. exact HC.
       + inversion H; subst. exact HC.
-    - assert (Hstep : forall ra', exec_acts c (AWrite ch :: multi_acts r ra') s = (s', SOk) ->
+    - assert (Hstep : forall ra', exec_acts c (AWrite ch :: multi_acts r ra' e) s = (s', SOk) ->
                 Cont (write_at f (s_pos s) (concat (ch :: r))) s').
       { intros ra' H'. apply exec_acts_cons_ok in H'. destruct H' as (s1 & Hs & Hr). simpl in Hs.
         destruct (do_write_Cont f s ch s1 HC Hs) as [HC1 Hp].
@@ -109,21 +162,82 @@ Section Image.
       + apply (Hstep None). exact H.
   Qed.
 
-  Lemma tofile_Cont c chunk sp f s s' :
-    no_ext (0, sp) = true -> Cont f s -> exec_acts c (tofile_acts tens chunk sp) s = (s', SOk) ->
-    Cont (write_at f (s_pos s) (tensor_bytes fs0 tens sp)) s'.
+  (* the chunked copy of ExternalTensor.tofile *)
+  Lemma copy_Cont c h x D mD :
+    nth_error tens h = Some x -> file_at fs0 (t_path x) = Some (D, mD) -> t_off x + t_len x <= length D ->
+    forall fuel rel remaining f s s',
+    rel + remaining <= t_len x -> remaining <= fuel -> Cont f s -> InvA fs0 tens sc s ->
+    exec_acts c (flat_map (fun rn => [ARead h (fst rn) (snd rn); AWriteBuf]) (chunk_plan fuel rel remaining (sc_chunk sc))) s
+      = (s', SOk) ->
+    Cont (write_at f (s_pos s) (slice D (t_off x + rel) remaining)) s' /\ InvA fs0 tens sc s'
+    /\ s_pos s' = s_pos s + remaining.
   Proof.
-    intros Hne HC H. destruct sp as [d|h| |chunks ra]; cbn [tofile_acts tensor_bytes] in *.
+    intros Hx HD Hb. induction fuel as [|k IH]; intros rel remaining f s s' Hr Hf HC HA H.
+    - assert (remaining = 0) by lia. subst remaining. simpl in H. inversion H; subst.
+      unfold slice. simpl. rewrite Nat.add_0_r. auto.
+    - simpl in H. destruct (remaining =? 0) eqn:E0.
+      + apply Nat.eqb_eq in E0. subst remaining. simpl in H. inversion H; subst.
+        unfold slice. simpl. rewrite Nat.add_0_r. auto.
+      + apply Nat.eqb_neq in E0. set (n := Nat.min (sc_chunk sc) remaining) in *.
+        cbn [flat_map fst snd app] in H.
+        apply exec_acts_cons_ok in H. destruct H as (s1 & Hs1 & H).
+        apply exec_acts_cons_ok in H. destruct H as (s2 & Hs2 & H).
+        pose proof (step_IA (ARead h rel n) s s1 eq_refl HA Hs1) as HA1.
+        pose proof (step_IA AWriteBuf s1 s2 eq_refl HA1 Hs2) as HA2.
+        simpl in Hs1. destruct (nth_error (s_tens s) h) as [x'|] eqn:En; [|discriminate].
+        destruct (src_stable s h x' HA En) as (x0 & Hx0 & P1 & P2 & P3 & P4).
+        rewrite Hx in Hx0. inversion Hx0; subst x0. rewrite P4, HD, P2 in Hs1.
+        destruct (slice D (t_off x + rel) n) as [|b0 b] eqn:Eb; [discriminate|].
+        inversion Hs1; subst s1. clear Hs1.
+        assert (Hn : n <= remaining) by (unfold n; lia).
+        assert (Hlen : length (b0 :: b) = n) by (rewrite <- Eb; apply slice_length; lia).
+        assert (HC1 : Cont f (with_buf s (b0 :: b))) by exact HC.
+        simpl in Hs2. destruct (do_write_Cont f _ _ s2 HC1 Hs2) as [HC2 Hp2]. cbn [s_pos with_buf] in HC2, Hp2.
+        assert (Hn1 : 1 <= n) by (simpl in Hlen; lia).
+        destruct (IH (rel + n) (remaining - n) _ s2 s' ltac:(lia) ltac:(lia) HC2 HA2 H) as (HC3 & HA3 & Hp3).
+        split; [|split; [exact HA3|rewrite Hp3, Hp2, Hlen; lia]].
+        rewrite Hp2, Hlen, Nat.add_assoc in HC3. rewrite <- Hlen in HC3 at 1.
+        rewrite write_at_app in HC3. rewrite <- Eb in HC3. rewrite slice_split in HC3 by exact Hn. exact HC3.
+  Qed.
+
+  Lemma loop_okA h l :
+    forallb (okA fs0 sc) (flat_map (fun rn : nat * nat => [ARead h (fst rn) (snd rn); AWriteBuf]) l) = true.
+  Proof. induction l as [|rn r IHr]; simpl; [reflexivity|exact IHr]. Qed.
+
+  Lemma tofile_Cont c sp f s s' :
+    Cont f s -> InvA fs0 tens sc s -> exec_acts c (tofile_acts tens (sc_chunk sc) sp) s = (s', SOk) ->
+    Cont (write_at f (s_pos s) (tensor_bytes fs0 tens sp)) s' /\ InvA fs0 tens sc s'.
+  Proof.
+    intros HC HA H.
+    assert (HA' : InvA fs0 tens sc s').
+    { eapply acts_IA; [|exact HA|exact H]. eapply forallb_impl; [apply wr_okA|apply tofile_wr]. }
+    split; [|exact HA'].
+    destruct sp as [d|h|e|chunks ra e]; cbn [tofile_acts tensor_bytes] in *.
     - apply exec_acts_cons_ok in H. destruct H as (s1 & Hs & Hr). simpl in Hs, Hr. inversion Hr; subst.
       apply (do_write_Cont f s d s' HC Hs).
-    - discriminate.
+    - apply exec_acts_cons_ok in H. destruct H as (s1 & Hs1 & H).
+      assert (s1 = s).
+      { simpl in Hs1. destruct (nth_error (s_tens s) h) as [x'|]; [|discriminate].
+        destruct (negb (t_valid x')); [discriminate|]. destruct (file_at (s_fs s) (t_path x')); inversion Hs1; reflexivity. }
+      subst s1. apply exec_acts_app_ok in H. destruct H as (s2 & Hloop & Hchk).
+      assert (HA2 : InvA fs0 tens sc s2).
+      { eapply acts_IA; [|exact HA|exact Hloop]. apply loop_okA. }
+      apply exec_acts_cons_ok in Hchk. destruct Hchk as (s3 & Hs3 & Hr3). simpl in Hr3. inversion Hr3; subst s3. clear Hr3.
+      simpl in Hs3. destruct (nth_error (s_tens s2) h) as [x2|] eqn:En2; [|discriminate].
+      destruct (src_stable s2 h x2 HA2 En2) as (x & Hx & P1 & P2 & P3 & P4).
+      rewrite P4, P2, P3 in Hs3. destruct (file_at fs0 (t_path x)) as [[D mD]|] eqn:HD; [|discriminate].
+      destruct (t_off x + t_len x <=? length D) eqn:Hb; [|discriminate]. apply Nat.leb_le in Hb.
+      inversion Hs3; subst s'. clear Hs3.
+      rewrite Hx in *. 
+      destruct (copy_Cont c h x D mD Hx HD Hb (t_len x) 0 (t_len x) f s s2 ltac:(lia) ltac:(lia) HC HA Hloop) as (HC2 & _ & _).
+      rewrite Nat.add_0_r in HC2. rewrite HD. exact HC2.
     - simpl in H. unfold perform in H. simpl in H. discriminate.
     - eapply multi_Cont; eauto.
   Qed.
 
   Lemma cb_Cont c cb i f s s' : Cont f s -> exec_acts c (cb_acts cb i) s = (s', SOk) -> Cont f s'.
   Proof.
-    intros HC H. destruct cb as [[j|]|]; cbn [cb_acts] in H.
+    intros HC H. destruct cb as [[[j e]|]|]; cbn [cb_acts] in H.
     - apply exec_acts_cons_ok in H. destruct H as (s1 & Hs & Hr). simpl in Hs, Hr. inversion Hr; subst.
       destruct (Nat.eqb i j); inversion Hs; subst; exact HC.
     - apply exec_acts_cons_ok in H. destruct H as (s1 & Hs & Hr). simpl in Hs, Hr. inversion Hr; subst.
@@ -131,22 +245,24 @@ Section Image.
     - inversion H; subst. exact HC.
   Qed.
 
-  Lemma tensors_Cont c chunk cb l : forall i f s s',
-    forallb no_ext l = true -> Cont f s ->
-    exec_acts c (tensors_acts tens chunk cb i l) s = (s', SOk) ->
+  Lemma tensors_Cont c cb l : forall i f s s',
+    Cont f s -> InvA fs0 tens sc s ->
+    exec_acts c (tensors_acts tens (sc_chunk sc) cb i l) s = (s', SOk) ->
     Cont (fold_left (fun g x => write_at g (fst x) (tensor_bytes fs0 tens (snd x))) l f) s'.
   Proof.
-    induction l as [|[off sp] r IH]; intros i f s s' Hne HC H.
+    induction l as [|[off sp] r IH]; intros i f s s' HC HA H.
     - simpl in H. inversion H; subst. exact HC.
-    - simpl in Hne. apply andb_prop in Hne. destruct Hne as [Hn1 Hn2].
-      cbn [tensors_acts] in H. apply exec_acts_app_ok in H. destruct H as (s1 & H1 & H).
+    - cbn [tensors_acts] in H. apply exec_acts_app_ok in H. destruct H as (s1 & H1 & H).
       pose proof (cb_Cont c cb i f s s1 HC H1) as HC1.
+      assert (HA1 : InvA fs0 tens sc s1).
+      { eapply acts_IA; [|exact HA|exact H1]. eapply forallb_impl; [apply wr_okA|apply cb_wr]. }
       apply exec_acts_cons_ok in H. destruct H as (s2 & Hs & H).
+      pose proof (step_IA (ASeek off) s1 s2 eq_refl HA1 Hs) as HA2.
       assert (HC2 : Cont f s2 /\ s_pos s2 = off).
       { simpl in Hs. destruct HC1 as [Hfd Hl]. rewrite Hfd in Hs. inversion Hs; subst. simpl. split; [split; [reflexivity|exact Hl]|reflexivity]. }
       destruct HC2 as [HC2 Hp].
       apply exec_acts_app_ok in H. destruct H as (s3 & H3 & H).
-      pose proof (tofile_Cont c chunk sp f s2 s3 Hn1 HC2 H3) as HC3. rewrite Hp in HC3.
+      destruct (tofile_Cont c sp f s2 s3 HC2 HA2 H3) as [HC3 HA3]. rewrite Hp in HC3.
       simpl fold_left. eapply IH; eauto.
   Qed.
 End Image.
@@ -161,12 +277,12 @@ Proof.
 Qed.
 
 Theorem prerepl_image fs0 tens sc c s1 d m :
+  src_wf fs0 tens sc ->
   InvA fs0 tens sc s1 ->
-  forallb no_ext (sc_tensors sc) = true ->
   PreRepl fs0 tens sc c s1 d m ->
   d = image fs0 tens (sc_tensors sc).
 Proof.
-  intros HA Hne (s3 & s4 & HB1 & HT & Hl).
+  intros Hsrc HA (s3 & s4 & HB1 & HT & Hl).
   set (dest := dest_of fs0 (sc_req sc)) in *.
   set (tmpf := tmpf_of sc dest) in *.
   assert (Hres : resolve (s_fs s1) tmpf = tmpf).
@@ -175,7 +291,9 @@ Proof.
   destruct (exec_acts c [AOpenW tmpf] s1) as [s2 r2] eqn:E2.
   destruct r2; try discriminate.
   apply exec_acts_cons_ok in E2. destruct E2 as (s2' & Hs & Hr). simpl in Hr. inversion Hr; subst s2'. clear Hr.
-  assert (HC2 : Cont tmpf [] s2).
+  assert (HA2 : InvA fs0 tens sc s2).
+  { eapply step_IA; [|exact HA|exact Hs]. unfold okA. simpl. fold dest. fold tmpf. rewrite path_eqb_refl. reflexivity. }
+  assert (HC2 : Cont fs0 sc [] s2).
   { simpl in Hs. rewrite Hres in Hs.
     destruct (lookup (s_fs s1) tmpf) as [[f0 m0| |t]|] eqn:El; try discriminate.
     - inversion Hs; subst. split; [reflexivity|]. exists m0. simpl. apply lookup_insert_eq.
@@ -186,12 +304,11 @@ Proof.
   destruct rx as [ |e| ]; cbv iota beta in HB1; rewrite ?exec_pacts in HB1.
   2:{ destruct (exec_acts c [AClose] sx) as [sy [ |e'| ]]; discriminate. }
   2:{ discriminate. }
-  pose proof (tensors_Cont fs0 tens tmpf c _ _ _ _ _ _ _ Hne HC2 Ex) as HCx.
+  pose proof (tensors_Cont fs0 tens sc Hsrc c _ _ _ _ _ _ HC2 HA2 Ex) as HCx.
   fold (image fs0 tens (sc_tensors sc)) in HCx.
   apply exec_acts_cons_ok in HB1. destruct HB1 as (s3' & Hs3 & Hr3). simpl in Hs3, Hr3.
   inversion Hr3; subst s3'. inversion Hs3; subst s3. clear Hr3 Hs3.
-  destruct HCx as [_ (mx & Hlx)].
-  (* the tail before the rename *)
+  destruct HCx as [_ (mx & Hlx)]. fold dest in Hlx. fold tmpf in Hlx.
   unfold TAILPRE in HT. fold dest in HT. fold tmpf in HT.
   apply exec_acts_app_ok in HT. destruct HT as (s5 & H5 & HT).
   apply releases_fs in H5. simpl in H5.
@@ -204,8 +321,22 @@ Proof.
   - simpl in HT. inversion HT; subst s4. simpl in Hl. rewrite H5, Hlx in Hl. inversion Hl. reflexivity.
 Qed.
 
-Lemma crash_atomic_image :
-  forall fs0 tens small sc k, single_wf fs0 sc -> forallb no_ext (sc_tensors sc) = true ->
+Lemma interrupt_atomic_image fs0 tens small sc c :
+  single_wf fs0 sc -> src_wf fs0 tens sc ->
+  let dest := dest_of fs0 (sc_req sc) in
+  let s := fst (run c fs0 tens small sc) in
+  lookup (s_fs s) dest = lookup fs0 dest
+  \/ exists m, lookup (s_fs s) dest = Some (File (image fs0 tens (sc_tensors sc)) m)
+       /\ In (OReplace (tmpf_of sc dest) dest) (s_trace s).
+Proof.
+  intros Hwf Hsrc. cbv zeta.
+  destruct (interrupt_atomic fs0 tens small sc Hwf c) as [H|(d & m & Hl & Hin & s1 & HA & HP)].
+  - left. exact H.
+  - right. exists m. rewrite <- (prerepl_image fs0 tens sc c s1 d m Hsrc HA HP). split; assumption.
+Qed.
+
+Lemma crash_atomic_image fs0 tens small sc k :
+  single_wf fs0 sc -> src_wf fs0 tens sc ->
   let dest := dest_of fs0 (sc_req sc) in
   let s := fst (run_prefix k fs0 tens small sc) in
   length (s_trace s) <= k /\
@@ -213,8 +344,6 @@ Lemma crash_atomic_image :
    \/ exists m, lookup (s_fs s) dest = Some (File (image fs0 tens (sc_tensors sc)) m)
         /\ In (OReplace (tmpf_of sc dest) dest) (s_trace s)).
 Proof.
-  intros fs0 tens small sc k Hwf Hne. cbv zeta. split; [apply prefix_len|].
-  destruct (interrupt_atomic fs0 tens small sc Hwf {| crash_at := Some k; fault_at := None |}) as [H|(d & m & Hl & Hin & s1 & HA & HP)].
-  - left. exact H.
-  - right. exists m. rewrite <- (prerepl_image fs0 tens sc _ s1 d m HA Hne HP). split; assumption.
+  intros Hwf Hsrc. cbv zeta. split; [apply prefix_len|].
+  apply (interrupt_atomic_image fs0 tens small sc _ Hwf Hsrc).
 Qed.
